@@ -1,7 +1,7 @@
 //go:build verif
 
 // Contracts for package handshake (internal FSM; comment-only; read by /verif/vc).
-package handshake
+package dtlshandshake
 
 // RFC 6347 4.2.4.1 timer law. 60 s = 60e9 ns. The interval is positive and below 2^62 ns
 // (about 146 years), so doubling cannot overflow int64.
